@@ -385,12 +385,25 @@ def case_summary(c, o):
             "observed": o}
 
 
+CANON_VERB = re.compile(r'^shoot: (Get|GET|get|Post|POST|post|Put|PUT|put|Patch|PATCH|patch|Delete|DELETE|delete)\(("?)[^"\n]+\2\)$')
+CANON_ALIAS = re.compile(r'^shoot: alias=\{[^{}:,; ]+:[^{}; ]+\}(,\{[^{}:,; ]+:[^{}; ]+\})*$')
+
+
+def canonical_comment(lines):
+    """is the doc comment in the canonical form of Proofs/RestParse.v (canonical_doc)?  (measured on the rendered text)"""
+    ls = [l.rstrip() for l in lines]
+    if len(ls) == 1:
+        return bool(CANON_VERB.match(ls[0])) and "alias=" not in ls[0]
+    return len(ls) == 2 and bool(CANON_VERB.match(ls[0])) and "alias=" not in ls[0] and bool(CANON_ALIAS.match(ls[1]))
+
+
 def feature_counters(cases, obs):
     f = {"verbs": {}, "outcomes": {}, "placeholders": {}, "with_ctx": 0, "without_ctx": 0, "cancelled_ctx": 0,
          "alias_in_path": 0, "alias_in_query": 0, "ptr_scalar_nil": 0, "ptr_scalar_set": 0, "struct_value": 0,
          "struct_pointer": 0, "struct_nil_body": 0, "qualified_struct": 0, "map_param": 0, "map_nil": 0,
          "map_overrides_declared_key": 0, "field_alias": 0, "field_ptr_nil": 0, "field_getter": 0,
-         "iface_headers": 0, "quoted_path": 0, "unquoted_path": 0, "url_unsafe_path_arg": 0, "result_shapes": {}}
+         "iface_headers": 0, "quoted_path": 0, "unquoted_path": 0, "url_unsafe_path_arg": 0, "result_shapes": {},
+         "canonical_doc_comments": 0}
     for c, o in zip(cases, obs):
         m, a = c["method"], c["args"]
         f["verbs"][m["verb"]] = f["verbs"].get(m["verb"], 0) + 1
@@ -405,6 +418,8 @@ def feature_counters(cases, obs):
             f["alias_in_query"] += 1
         if c["iface"]["hdr_line"]:
             f["iface_headers"] += 1
+        if canonical_comment(m["doc_lines"]):
+            f["canonical_doc_comments"] += 1
         if any('"' in l for l in m["doc_lines"] if "(" in l):
             f["quoted_path"] += 1
         else:
@@ -644,7 +659,9 @@ TRUSTED = [
     "of the argument, and an empty base query; join_decoded/canon/dec are compared with the real functions on every run (L0)",
     "RE2 is not modelled: Model/Directive.v executes the six regular expressions of cook.go, written down literally, with a "
     "backtracking leftmost-first matcher; equivalence with Go's regexp on the directive alphabet is established by the L1 "
-    "differential run only (skipped, and recorded, when the verif hooks do not compile)",
+    "differential run only (skipped, and recorded, when the verif hooks do not compile); that the MODEL's parsers read the "
+    "canonical rendering of a directive back exactly is a theorem (Proofs/RestParse.v), for the other spellings of the "
+    "generator it is checked per case inside Coq",
     "text/template is not modelled: the meaning of restclient.tmpl:15-92 is given by hand as Model/Rest.v exec",
     "go/ast and parser.ParseDir enter through the env / iface records, which harness/go/cmd/restast fills by parsing the "
     "very sources shoot is run on (go/parser with comments, CommentGroup.Text for the doc text, the type declarations "
